@@ -352,7 +352,7 @@ def run(tier):
     cli = common.build_cli()
     drv = common.build_driver()
     base = common.seed() * 19000013
-    ndocs = 300 if tier == "quick" else 10000
+    ndocs = 300 if tier == "quick" else 40000
     djobs = [(cli, drv, i, base + i, "init" if i % 3 == 0 else "save") for i in range(ndocs)]
     for (job, r) in zip(djobs, common.pmap(run_doc_case, djobs, chunksize=4)):
         if "inconclusive" in r:
